@@ -71,6 +71,26 @@ impl VectorTileLayer {
 			invariant writer.sink.buf@ == b2 + vals_wire(self.property_manager.val.list@, it3.index@ as int),
 //@end
 }
+
+//@extract struct file="versatiles_geometry/src/vector_tile/tile.rs" name="VectorTile"
+//@end
+// MVT 2.1 §4: message Tile { repeated Layer layers = 3; }
+pub open spec fn layers_wire(l: Seq<VectorTileLayer>, k: int) -> Seq<u8> decreases k { if k <= 0 { Seq::empty() } else { layers_wire(l, k - 1) + pbf_key(3, 2) + lenpref(l[k - 1].wire()) } }
+impl VectorTile {
+//@extract fn file="versatiles_geometry/src/vector_tile/tile.rs" scope="impl VectorTile" name="new"
+//@ret r
+//@spec
+		ensures r.layers == layers
+//@end
+//@extract fn file="versatiles_geometry/src/vector_tile/tile.rs" scope="impl VectorTile" name="to_blob"
+//@ret r
+//@spec
+		// every layer is written, in order, as one field-3 record; nothing else
+		ensures r is Ok ==> r.unwrap()@ == layers_wire(self.layers@, self.layers@.len() as int)
+//@loop 1 iter=it
+			invariant writer.sink.buf@ == layers_wire(self.layers@, it.index@ as int),
+//@end
+}
 } // verus!
 #[derive(Clone, PartialEq, Eq, Hash, Debug)] pub struct AbsStr { s: String }
 #[derive(Clone, PartialEq, Eq, Hash, Debug)] pub struct GeoValue { v: u8 }
